@@ -94,8 +94,10 @@ def attribute(case, s, t, budget):
     naming what is left (link labels, non-baseline source / sink kinds, context)."""
     spec = case.get("spec")
     labels = tg.planted_paths(case).get((s["id"], t["id"]), [])
-    raw = sorted(set(labels)) or ["direct"]
-    if not spec or budget[0] <= 0:
+    raw = describe(case, s, t, labels, spec)
+    if not spec:
+        return raw, True
+    if budget[0] <= 0:
         return raw, False
     ch = json.loads(json.dumps(spec["chains"][s["chain"]]))
     chain_srcs = [x for x in case["sources"] if x["chain"] == s["chain"]]
@@ -114,11 +116,10 @@ def attribute(case, s, t, budget):
             return False
         return pair_missed(c, role) is True
 
-    elements = []
     if len(spec["chains"]) > 1:
         if not fails(cur):
             # the miss needs the other chains: keep them all and only name that
-            return sorted(set(raw + ["multi-chain"])), True
+            return (sorted(set(raw[0] + ["multi-chain"])), raw[1]), True
     protected = set()
     if s.get("secondary"):
         protected.add("merge_src")
@@ -180,27 +181,72 @@ def attribute(case, s, t, budget):
                 changed = True
                 break
     final = tg.render(cur)
+    final["spec"] = cur
     fsrcs = [x for x in final["sources"] if x["chain"] == 0]
     fsnks = [x for x in final["sinks"] if x["chain"] == 0]
     if role[0] < len(fsrcs) and role[1] < len(fsnks):
-        labs = tg.planted_paths(final).get((fsrcs[role[0]]["id"], fsnks[role[1]]["id"]), [])
-    else:
-        labs = labels
-    elements = set(labs)
-    c0 = cur["chains"][0]
-    for pre in c0.get("pre", []):
-        elements.add("pre:" + pre.get("kind", "func"))
-    if c0.get("start_mod"):
-        elements.add("start_mod")
-    if c0.get("src") != "method" and not s.get("secondary"):
-        elements.add("src:" + c0.get("src", "?"))
-    if role[1] < len(fsnks):
-        ft = fsnks[role[1]]
-        if (ft["kind"], ft["pos"]) != ("call", "arg0"):
-            elements.add("snk:%s:%s" % (ft["kind"], ft["pos"]))
-    if not cur.get("uniq_names") and len(final["sources"]) + len(final["sinks"]) > 2:
-        elements.add("shared-names")
-    return sorted(elements) or ["direct"], True
+        fs, ft = fsrcs[role[0]], fsnks[role[1]]
+        labs = tg.planted_paths(final).get((fs["id"], ft["id"]), [])
+        return describe(final, fs, ft, labs, cur), True
+    return raw, True
+
+
+def describe(case, s, t, labels, spec):
+    """(context elements, ordered link labels) naming a planted path."""
+    ctx = set()
+    ch = case["chains"][s["chain"]] if case.get("chains") else {}
+    for pre in ch.get("pre", []):
+        ctx.add(pre)
+    if ch.get("start_mod"):
+        ctx.add("start_mod")
+    if not s.get("secondary"):
+        sl = ch.get("src_label", "src:" + s["kind"])
+        if sl != "src:method":
+            ctx.add(sl)
+    elif s["kind"] != "method":
+        ctx.add("src2:" + s["kind"])
+    if (t["kind"], t["pos"]) != ("call", "arg0"):
+        ctx.add("snk:%s:%s" % (t["kind"], t["pos"]))
+    if spec is not None and not spec.get("uniq_names") and len(case["sources"]) + len(case["sinks"]) > 2:
+        ctx.add("shared-names")
+    return sorted(ctx), list(labels)
+
+
+CALL_LIKE = {"param", "param_kw", "method_param", "call_id", "call_kw", "call_second", "ctor_field", "return",
+             "pre:func", "pre:method", "src:param"}
+
+
+def sig_class(desc):
+    """(class, detail) of a minimised missed path.  Classes are the root causes identified by triage (see
+    known_findings.d/C10.json); detail names the construct.  Minimal chains of three or more links that match no
+    family fall into the class 'composition' (their single links and pairs all pass)."""
+    ctx, seq = desc
+    ctx = set(ctx)
+    if "shared-names" in ctx:
+        return "shared-names", "-"
+    stripped = [tg._strip_label(x) for x in seq]
+    if "global_import" in stripped:
+        ctx.discard("start_mod")
+    if "global_write@mod" in seq:
+        ctx = {c for c in ctx if not (c.startswith(("pre:", "src:param")) and c.endswith("@from"))}
+    elems = sorted(ctx) + list(seq)
+    mod_calls = [e for e in elems if e.endswith("@mod") and e.split("@")[0] in CALL_LIKE]
+    if mod_calls:
+        return "call-via-module-attribute", mod_calls[0]
+    mod_globals = [e for e in elems if e in ("global_write@mod", "global_import@mod")]
+    if mod_globals:
+        return "global-via-module-attribute", mod_globals[0]
+    if "global_import@from" in elems:
+        return "global-imported-by-name", "global_import@from"
+    fam = tg.family_of(seq)
+    if fam:
+        return fam, "-"
+    if len(seq) >= 3:
+        return "composition", "%d-links" % min(len(seq), 4)
+    detail = "|".join(sorted(ctx) + [">".join(seq) or "direct"])
+    if ctx:
+        return "in-context", detail
+    return ("pair" if len(seq) == 2 else "link"), detail
 
 
 def check_case(case, budget=None, memo=None):
@@ -222,9 +268,9 @@ def check_case(case, budget=None, memo=None):
         s = sid.get((pair[0], pair[1]))
         t = tid.get((pair[2], pair[3]))
         if case.get("sig_hint"):
-            elems = [case["sig_hint"]]
+            elems = tuple(case["sig_hint"])
         elif s is None or t is None:
-            elems = ["undeclared-site"]
+            elems = ("undeclared-site", "-")
         else:
             key = None
             if memo is not None and case.get("spec"):
@@ -236,12 +282,13 @@ def check_case(case, budget=None, memo=None):
             if key is not None and key in memo:
                 elems = memo[key]
             else:
-                elems, done = attribute(case, s, t, budget)
+                desc, done = attribute(case, s, t, budget)
+                elems = sig_class(desc)
                 if not done and case.get("spec"):
-                    elems = ["unattributed"] + elems
+                    elems = ("unattributed", "|".join(desc[0] + [">".join(desc[1])]))
                 if key is not None:
                     memo[key] = elems
-        sig = (ID, "missed", "|".join(elems))
+        sig = (ID, "missed") + tuple(elems)
         what = "flow %s:%d -> %s:%d happens under CPython but is not reported (reported: %s)" % (
             pair[0], pair[1], pair[2], pair[3], sorted(ev["flows"]))
         out.append((sig, what, case))
@@ -347,24 +394,52 @@ def sweep_specs(avoid_kinds):
     add("out_field", {"pre": [{"kind": "func"}], "links": [{"k": "out_field"}]})
     add("global_import@from", {"start_mod": 1, "links": [{"k": "global_import", "xf": "from"}]}, nfiles=2)
     add("global_import@mod", {"start_mod": 1, "links": [{"k": "global_import", "xf": "mod"}]}, nfiles=2)
+    add("pre:func", {"pre": [{"kind": "func"}], "links": []})
     add("pre:method", {"pre": [{"kind": "method"}], "links": []})
     add("pre:nested", {"pre": [{"kind": "func"}, {"kind": "nested"}], "links": []})
+    for xf in ("from", "mod"):
+        add("pre:func@" + xf, {"pre": [{"kind": "func", "df": 1, "xf": xf}], "links": []}, nfiles=2)
+        add("pre:method@" + xf, {"pre": [{"kind": "method", "df": 1, "xf": xf}], "links": []}, nfiles=2)
+        if "src:param" not in avoid_kinds:
+            add("src:param@" + xf, {"src": "param", "pfile": {"kind": "param", "df": 1, "xf": xf}, "links": []}, nfiles=2)
     add("start_mod", {"start_mod": 1, "links": []}, nfiles=2)
-    add("src-param@from", {"src": "param", "pfile": {"kind": "param", "df": 1, "xf": "from"}, "links": []}, nfiles=2)
-    add("src-param@mod", {"src": "param", "pfile": {"kind": "param", "df": 1, "xf": "mod"}, "links": []}, nfiles=2)
+    # the root-cause families of FAMILIES, one representative each (the pairwise sweep that defined them is
+    # re-run by the thorough tier)
+    add("family:loop-body-def", {"links": [{"k": "for_body"}, {"k": "assign"}]})
+    add("family:loop-body-def/while", {"links": [{"k": "while_body"}, {"k": "assign"}]})
+    add("family:loop-body-def/side-effect", {"pre": [{"kind": "func"}], "links": [{"k": "in_for"}, {"k": "global_write"}]})
+    add("family:free-variable-copy", {"links": [{"k": "closure"}, {"k": "assign"}]})
+    add("family:free-variable-copy/closure", {"pre": [{"kind": "func"}], "links": [{"k": "closure"}, {"k": "assign"}]})
+    add("family:try-body-def>loop", {"links": [{"k": "try_body"}, {"k": "for_body"}]})
     return specs
+
+
+def pair_specs(avoid_kinds):
+    """every ordered pair of link kinds, at module level and inside a function (thorough tier)."""
+    src = next(k for k in BASE_SRC_ORDER if ("src:" + k) not in avoid_kinds)
+    kinds = [k for k in tg.ALL_LINKS if k not in ("merge_src", "tee", "global_import")]
+    out = []
+    for infunc in (False, True):
+        for a in kinds:
+            for b in kinds:
+                ch = {"src": src, "pre": [{"kind": "func"}] if infunc else [], "links": [{"k": a}, {"k": b}],
+                      "end": "sink", "snk": {"kind": "call", "pos": "arg0", "nargs": 1}}
+                out.append(("pair:%s>%s%s" % (a, b, "/func" if infunc else ""),
+                            {"nfiles": 1, "uniq_names": True, "chains": [ch]}))
+    return out
 
 
 def sweep_shard(arg):
     items, avoid = arg
     col = Collector()
-    budget = [60]
+    budget = [60 + 4 * len(items)]
+    memo = {}
     for name, spec in items:
         spec = dict(spec)
         spec["avoid"] = sorted(a for a in avoid if a.startswith(("src:", "snk:")))
         case = tg.render(spec)
         case["spec"] = spec
-        ds, info = check_case(case, budget=budget)
+        ds, info = check_case(case, budget=budget, memo=memo)
         col.case()
         col.label("sweep")
         ev = info["ev"]
@@ -375,28 +450,46 @@ def sweep_shard(arg):
         for sig, what, sub in ds:
             col.discrepancy(sig, what, slim(sub))
             if sig[1] == "missed":
-                col.notes.append("sweep-missed:" + sig[2])
+                col.notes.append("sweep-missed:" + json.dumps(list(sig[2:])))
     return col
 
 
 # ---------------------------------------------------------------------------------------------
 # random phase
 
+def parse_sig(sigstr):
+    """'ctx1|ctx2|a>b' -> (set of context elements, core)"""
+    parts = [x for x in str(sigstr).split("|") if x]
+    return set(parts[:-1]), (parts[-1] if parts else "")
+
+
+def is_subsequence(need, seq):
+    it = iter(seq)
+    return all(any(x == y for y in it) for x in need)
+
+
 def combo_blocked(case, combos):
-    for ch in case["chains"]:
-        have = set(ch["labels"])
-        have.add("src:" + ch["src"])
-        for pre in ch.get("pre", []):
-            have.add("pre:" + pre)
+    """Is some chain of the case an instance of an open finding (context elements + core sequence / family)?"""
+    fam_names = {n for n, _ in tg.FAMILIES}
+    for ci, ch in enumerate(case["chains"]):
+        have = set(ch.get("pre", []))
+        have.add(ch.get("src_label", "src:" + ch["src"]))
         if ch.get("start_mod"):
             have.add("start_mod")
         if len(case["chains"]) > 1:
             have.add("multi-chain")
         for t in case["sinks"]:
-            have.add("snk:%s:%s" % (t["kind"], t["pos"]))
-        for combo in combos:
-            if combo and combo <= have:
-                return "|".join(sorted(combo))
+            if t["chain"] == ci:
+                have.add("snk:%s:%s" % (t["kind"], t["pos"]))
+        for s_ in case["sources"]:
+            if s_["chain"] == ci and s_.get("secondary"):
+                have.add("src2:" + s_["kind"])
+        for sigstr in combos:
+            ctx, core = parse_sig(sigstr)
+            if not ctx <= have:
+                continue
+            if core == "direct" or is_subsequence(core.split(">"), ch["labels"]):
+                return sigstr
     return None
 
 
@@ -408,7 +501,6 @@ def random_shard(arg):
     budget = [80]
     memo = {}
     avoid = sorted(avoid)
-    combos = [frozenset(c) for c in combos]
     src_kinds = [k for k in tg.SOURCE_KINDS if ("src:" + k) not in avoid] or ["method"]
     snk_kinds = [k for k in tg.SINK_KINDS if ("snk:" + k) not in avoid] or ["call"]
     for k in tg.SOURCE_KINDS:
@@ -434,6 +526,7 @@ def random_shard(arg):
         if blocked:
             col.stepovers["missed " + blocked] += 1
             col.discards["stepped-over-combination"] += 1
+            col.case()
             return
         ds, info = check_case(case, budget=budget, memo=memo)
         col.case()
@@ -469,7 +562,7 @@ def replay_one(col, case, failed_kinds):
     if "calibration" in case:
         handle_calibration(col, case, failed_kinds)
         return
-    ds, info = check_case(case, budget=[0])
+    ds, info = check_case(case, budget=[40])
     col.case()
     col.label("replayed")
     if info.get("discard"):
@@ -503,19 +596,36 @@ def replay(path):
 
 
 def known_open_missed():
-    """label sets of the open 'missed' findings (generator steps over them)."""
-    singles, combos = set(), []
+    """(class, detail) of the open 'missed' findings with an exact detail (the generator steps over them)."""
+    out = []
     for e in common.load_known(ID):
         if e.get("status") != "open":
             continue
         sig = e.get("signature", [])
-        if len(sig) == 3 and sig[1] == "missed" and sig[2] != "*":
-            elems = [x for x in str(sig[2]).split("|") if x]
-            if len(elems) == 1:
-                singles.add(elems[0])
-            else:
-                combos.append(sorted(elems))
-    return singles, combos
+        if len(sig) == 4 and sig[1] == "missed" and "*" not in (sig[2], sig[3]):
+            out.append((str(sig[2]), str(sig[3])))
+    return out
+
+
+def step_over_plan(observed):
+    """observed: set of (class, detail).  -> (labels / families the builder substitutes, combinations whose cases are
+    skipped, unique rule names per site?)"""
+    fam_names = {n for n, _ in tg.FAMILIES}
+    avoid, combos, uniq = set(), [], False
+    for cls, detail in sorted(observed):
+        if cls == "shared-names":
+            uniq = True
+        elif cls in fam_names:
+            avoid.add(cls)
+        elif cls in ("composition", "unattributed", "undeclared-site"):
+            continue
+        elif "|" not in detail and ">" not in detail and detail not in ("direct", "-"):
+            avoid.add(detail)
+        elif detail.endswith("|direct") and detail.count("|") == 1 and detail.startswith(("pre:", "src:param@")):
+            avoid.add(detail.split("|")[0])
+        else:
+            combos.append(detail)
+    return avoid, combos, uniq
 
 
 def main(tier, seed, t0):
@@ -538,28 +648,22 @@ def main(tier, seed, t0):
     if all(("src:" + k) in avoid for k in tg.SOURCE_KINDS) or all(("snk:" + k) in avoid for k in tg.SINK_KINDS):
         col.notes.append("every source kind or every sink kind failed calibration: random phase runs on the full grammar")
         avoid = set()
-    # 2. every link kind alone
+    # 2. every link kind alone (+ one representative per root-cause family; thorough: every ordered pair)
     items = sweep_specs(avoid)
-    per = max(1, (len(items) + common.NCPU - 1) // common.NCPU)
+    if tier != "quick":
+        items.extend(pair_specs(avoid))
+    nsh = common.NCPU * (1 if tier == "quick" else 4)
+    per = max(1, (len(items) + nsh - 1) // nsh)
     sw = common.run_shards(sweep_shard, [(items[i:i + per], sorted(avoid)) for i in range(0, len(items), per)])
-    sweep_missed = set()
-    for n in sw.notes:
-        if n.startswith("sweep-missed:"):
-            sweep_missed.add(n.split(":", 1)[1])
     sw.notes = [n for n in sw.notes if not n.startswith("sweep-missed:")]
     col.merge(sw)
-    singles, combos = known_open_missed()
-    uniq = "shared-names" in singles or "shared-names" in sweep_missed
-    for m in sorted(sweep_missed):
-        elems = [x for x in m.split("|") if x]
-        if len(elems) == 1:
-            singles.add(elems[0])
-        else:
-            combos.append(sorted(elems))
-    singles.discard("shared-names")
-    singles.discard("direct")
-    avoid |= {s for s in singles if not s.startswith(("pre:", "start_mod"))}
-    combos.extend([[s] for s in singles if s.startswith(("pre:", "start_mod"))])
+    observed = set()
+    for sig in col.buckets:
+        if len(sig) == 4 and sig[1] == "missed":
+            observed.add((sig[2], sig[3]))
+    # what the random phase steps over: misses observed just now on this tree + open known findings
+    a2, combos, uniq = step_over_plan(observed | set(known_open_missed()))
+    avoid |= a2
     # 3. random chains
     total = 520 if tier == "quick" else 25000
     nsh = common.NCPU if tier == "quick" else common.NCPU * 4
@@ -567,5 +671,5 @@ def main(tier, seed, t0):
     args = [(common.shard_seed(seed, i), per, sorted(avoid), combos, uniq) for i in range(nsh)]
     col.merge(common.run_shards(random_shard, args))
     return common.finish(ID, tier, seed, col, t0, RULE, ASSUMPTIONS,
-                         extra_coverage={"stepped_over_labels": sorted(avoid), "stepped_over_combinations": combos,
+                         extra_coverage={"stepped_over": sorted(avoid), "stepped_over_combinations": combos,
                                          "unique_rule_names_per_site": bool(uniq)})
